@@ -48,8 +48,9 @@ ASSUMPTIONS = [
     'diamonds and unregistered intermediate classes are outside the '
     'quantifier (not generated); an unregistered root is treated like a '
     'mix-in: its hooks must not run',
-    'multiplicity is demanded per processing of a node; documents here '
-    'contain no aliases (see the C18 known finding)',
+    'documents here contain no aliases: whether an aliased node counts as '
+    'one node or as one per reference for "exactly once" is not stated (C18 '
+    'checks that aliases are transparent for the loaded value)',
     '_yatiml_recognize may be consulted any number of times; only the class '
     'it is consulted for is judged',
 ]
@@ -762,12 +763,192 @@ def all_params(tier):
                             yield q
 
 
+# ---------------------------------------------------------------------------
+# hierarchies of classes that are written as scalars: string-like classes
+# (S1 <- S2) and enums (member-less base BE <- E), with unregistered mix-ins
+
+def make_scalar_chain(p):
+    """p: kind 'str'|'enum', sav/swe/rec: levels (1, 2) defining the hook,
+    mix: level that also derives from an unregistered mix-in defining all
+    hooks (0: none), mix_first, reg: registered levels."""
+    import enum
+    log = []
+
+    def hook(kind, owner):
+        def f(cls, node):
+            log.append((kind, owner, cls.__name__))
+        f.__name__ = '_yatiml_' + kind
+        return classmethod(f)
+
+    def body(level):
+        d = {}
+        for kind in ('recognize', 'savorize', 'sweeten'):
+            if level in p[kind[:3]]:
+                d['_yatiml_' + kind] = hook(kind, 'S%d' % level)
+        return d
+    mix = type('MixS', (), {'_yatiml_' + k: hook(k, 'MixS') for k in (
+        'recognize', 'savorize', 'sweeten')})
+
+    def bases(level, main):
+        if p['mix'] != level:
+            return main
+        return (mix,) + main if p['mix_first'] else main + (mix,)
+    if p['kind'] == 'str':
+        d1 = body(1)
+        s1 = type('S1', bases(1, (collections.UserString,)), d1)
+        s2 = type('S2', bases(2, (s1,)), body(2))
+    else:
+        # enum.EnumMeta wants mix-ins before the Enum base
+        def ebases(level, main):
+            return (mix,) + main if p['mix'] == level else main
+        s1 = enum.EnumMeta('S1', ebases(1, (enum.Enum,)),
+                           _enum_body(enum.EnumMeta, 'S1', ebases(
+                               1, (enum.Enum,)), body(1), {}))
+        s2 = enum.EnumMeta('S2', ebases(2, (s1,)),
+                           _enum_body(enum.EnumMeta, 'S2', ebases(
+                               2, (s1,)), body(2), {'aa': 1, 'bb': 2}))
+    return s1, s2, log
+
+
+def _enum_body(meta, name, bases, hooks, members):
+    d = meta.__prepare__(name, bases)
+    for k, v in hooks.items():
+        d[k] = v
+    for k, v in members.items():
+        d[k] = v
+    return d
+
+
+def scalar_chain_params():
+    for kind in ('str', 'enum'):
+        for sav in subsets(2):
+            for swe in subsets(2):
+                for ri, rec in enumerate(subsets(2)):
+                    for mix in (0, 1, 2):
+                        for reg in ((1, 2), (2,)):
+                            yield {'kind': kind, 'sav': list(sav),
+                                   'swe': list(swe), 'rec': list(rec),
+                                   'mix': mix, 'reg': list(reg),
+                                   'mix_first': (ri + mix) % 2 == 0,
+                                   'scalar_chain': True}
+
+
+def run_scalar_chain(ctx, p):
+    from typing import Dict, List
+    try:
+        s1, s2, log = make_scalar_chain(p)
+    except Exception as e:      # noqa
+        ctx.count('scalar_chain_unavailable_' + p['kind'])
+        ctx.note('scalar chain %r: %r' % (p, e))
+        return
+    regd = [c for i, c in ((1, s1), (2, s2)) if i in p['reg']]
+    tag = 'scalar-chain %s reg=%s mix=%s' % (p['kind'], p['reg'], p['mix'])
+    if p['kind'] == 'str':
+        vals = [s2('aa'), s2('bb')]
+        texts = ['aa', 'bb']
+    else:
+        vals = [s2.aa, s2.bb]
+        texts = ['aa', 'bb']
+    try:
+        load1 = yatiml.load_function(s2, *regd)
+        loadl = yatiml.load_function(List[s2], *regd)
+        loadd = yatiml.load_function(Dict[str, s2], *regd)
+        dumps = yatiml.dumps_function(*regd)
+        dumpj = yatiml.dumps_json_function(*regd)
+    except Exception as e:      # noqa
+        ctx.count('scalar_chain_unavailable_' + p['kind'])
+        ctx.note('scalar chain functions %r: %r' % (p, e))
+        return
+    ctx.count('scalar_chain_models')
+
+    def expect(kind):
+        return [('S%d' % i) for i in (1, 2)
+                if i in p['reg'] and i in p[kind[:3]]]
+
+    def judge(kind, n_objects, what):
+        evs = [e for e in log if e[0] == kind]
+        other = [e for e in log if e[0] not in (kind, 'recognize')]
+        for k, owner, clsname in log:
+            ctx.count('scalar_chain_%s_events' % k)
+            if owner == 'MixS' or (owner == 'S1' and 1 not in p['reg']):
+                ctx.violation(
+                    'C10 %s hook-of-unregistered-class-called scalar-class'
+                    % k, '%s._yatiml_%s was called (cls=%s) although %s is '
+                    'not registered (%s, %s)' % (owner, k, clsname, owner,
+                                                 tag, what), p)
+                return
+            if owner != clsname:
+                ctx.violation(
+                    'C10 %s inherited-hook-called-for-other-class '
+                    'scalar-class' % k,
+                    '_yatiml_%s defined in %s was called with cls=%s (%s, '
+                    '%s)' % (k, owner, clsname, tag, what), p)
+                return
+        if other:
+            ctx.violation('C10 %s wrong-phase scalar-class' % other[0][0],
+                          '%r during %s (%s)' % (other[0], what, tag), p)
+            return
+        got = [e[1] for e in evs]
+        want = expect(kind) * n_objects
+        ctx.count('scalar_chain_objects_checked', n_objects)
+        if got != want:
+            if sorted(got) == sorted(want):
+                kw = 'wrong-order'
+            elif len(got) > len(want):
+                kw = 'called-more-than-once' if set(got) <= set(want) \
+                    else 'extra-hook-called'
+            else:
+                kw = 'hook-skipped'
+            ctx.violation(
+                'C10 %s %s scalar-class' % (kind, kw),
+                '%s of %d object(s) of S2: _yatiml_%s calls %s, expected %s '
+                '(%s)' % (what, n_objects, kind, got, want, tag), p)
+
+    for fn, text, n, what in (
+            (load1, 'aa\n', 1, 'load top level'),
+            (loadl, '[aa, bb]\n', 2, 'load list'),
+            (loadd, 'x: aa\ny: bb\n', 2, 'load dict values')):
+        del log[:]
+        try:
+            fn(text)
+        except Exception as e:      # noqa
+            ctx.violation('C10 scalar-class load-failed %s' % type(
+                e).__name__, '%s of %r raised %s: %s (%s)' % (
+                    what, text, type(e).__name__, str(e)[-200:], tag), p)
+            continue
+        ctx.count('loads')
+        judge('savorize', n, what)
+    for fn, v, n, what in ((dumps, vals[0], 1, 'dump top level'),
+                           (dumps, list(vals), 2, 'dump list'),
+                           (dumps, {'x': vals[0], 'y': vals[1]}, 2,
+                            'dump dict values'),
+                           (dumpj, list(vals), 2, 'dump json list')):
+        del log[:]
+        try:
+            fn(v)
+        except Exception as e:      # noqa
+            ctx.violation('C10 scalar-class dump-failed %s' % type(
+                e).__name__, '%s raised %s: %s (%s)' % (
+                    what, type(e).__name__, str(e)[-200:], tag), p)
+            continue
+        ctx.count('dumps')
+        judge('sweeten', n, what)
+    ctx.case(p, True)
+
+
 def shard(ctx):
     for i, p in enumerate(all_params(ctx.tier)):
         if not ctx.mine(i):
             continue
         run_case(ctx, p)
+    for i, p in enumerate(scalar_chain_params()):
+        if not ctx.mine(i):
+            continue
+        run_scalar_chain(ctx, p)
 
 
 def replay(ctx, case):
-    run_case(ctx, case)
+    if case.get('scalar_chain'):
+        run_scalar_chain(ctx, case)
+    else:
+        run_case(ctx, case)
